@@ -7,6 +7,8 @@ pub fn strip_trailing_whitespace(s: &str) -> String {
     }
     let mut res = String::with_capacity(s.len());
     for line in s.lines() {
+        #[cfg(typstyle_verif)]
+        crate::verif::point("strip:line");
         res.push_str(line.trim_end());
         res.push('\n');
     }
